@@ -31,7 +31,7 @@ const (
 
 type wobj struct {
 	kind objKind
-	idx  int // parameter index
+	idx  int  // parameter index
 	deep bool // parameter objects: memory reached through a pointer loaded out of the parameter's own memory
 	name string
 	g    *ssa.Global
@@ -73,15 +73,15 @@ type wcause struct {
 }
 
 type wsummary struct {
-	WS      map[int]bool            // written shallowly: the memory the parameter itself denotes (pointee / backing array)
-	WD      map[int]bool            // written deeply: memory reached through pointers stored in it
-	W       map[int]bool            // parameter indexes written
-	G       map[*ssa.Global]bool    // globals written (transitively)
-	Ret     map[int]bool            // result may alias parameter
-	Fresh   bool                    // result may be a fresh object
-	Esc     map[[2]int]bool         // [i,j]: pointers from param j may be stored into memory of param i
-	Causes  map[string][]wcause     // root string -> causes (top-level only)
-	Unknown []string                // unmodelled callees / invokes
+	WS      map[int]bool         // written shallowly: the memory the parameter itself denotes (pointee / backing array)
+	WD      map[int]bool         // written deeply: memory reached through pointers stored in it
+	W       map[int]bool         // parameter indexes written
+	G       map[*ssa.Global]bool // globals written (transitively)
+	Ret     map[int]bool         // result may alias parameter
+	Fresh   bool                 // result may be a fresh object
+	Esc     map[[2]int]bool      // [i,j]: pointers from param j may be stored into memory of param i
+	Causes  map[string][]wcause  // root string -> causes (top-level only)
+	Unknown []string             // unmodelled callees / invokes
 	pnames  []string
 }
 
